@@ -605,8 +605,8 @@ func decodeMixed(c *Ctx, prop string, class int) {
 				n = (3 << 20) / junk
 			}
 			if w := c.L("gen:w"); w.Chance(1, 3) {
-				kind, sub, junk = 9+w.Intn(4), w.Intn(10), w.Intn(4)
-				n = []int{4000, 25000, 60000, 150000, 400000}[w.Intn(5)]
+				kind, sub, junk = 9+w.Intn(4), w.Intn(10), w.Intn(6)
+				n = []int{4000, 25000, 60000, 150000, 400000, 600000}[w.Intn(6)]
 				if kind == 12 && n > 40000 {
 					n = 40000 // (one callback per box: the harness records every invocation)
 				}
